@@ -1,8 +1,8 @@
 #!/verif/.venv/bin/python
 # Replay of a solver counterexample against the unmodified code (no shims).
-# property=C15 kernel=eomcfg label=k1:result_is_an_option
+# property=C15 kernel=l1 label=c15:disable_buffer
 import sys
-sys.path[:0] = ["/repo/pulser-core", "/repo/pulser-simulation", "/verif"]
+sys.path[:0] = ['/repo' + "/pulser-core", '/repo' + "/pulser-simulation", "/verif"]
 from symx.replay import replay
-sys.exit(replay(check='checks.c15', kernel='eomcfg', shape={'cfg': {'lim': 'R', 'ctrl': ['B']}},
-                assignment={'amp_on': '4137/1024', 'detuning_on': '0/1', 'optimal_detuning_off': '0/1'}, label='k1:result_is_an_option'))
+sys.exit(replay(check='checks.c15', kernel='l1', shape={'own': {'clock': 1, 'local': False, 'slots': [], 'mod': True, 'pj': 'derived', 'det_off': 0.0, 'eom': {'custom_buffer': True, 'blocks': [(0, None)]}}, 'op': ['disable_eom'], 'maxseq': True, 'nbarriers': 1},
+                assignment={'max_sequence_duration': 4, 'own.min_duration': 3, 'own.tr': 2, 'own.eom_buffer': 2, 'own.eom_tr': 1}, label='c15:disable_buffer'))
